@@ -7,7 +7,7 @@
    graph): `pure : option exn`, computed by the harness by building the sliver alone.  The model fixes WHERE
    in the sequence of checks and mutations that verdict is raised.  Names are validated by the model
    itself with the regenerated NAME_REGEX rules (Gen/T9Names.v). *)
-From Coq Require Import List NArith Bool.
+From Coq Require Import List NArith ZArith Bool.
 From FIM Require Import Base.Str Gen.T9Names Model.T9Graph.
 Import ListNotations.
 Open Scope N_scope.
@@ -419,6 +419,32 @@ Definition op_add_facility (fl : flavour) (name : str) (node_id : option N) (d_n
   | Some l => facility_ports fl facs l with_id d_intk 0 ;;; ret facn
   end.
 
+(* Topology.add_switch   topology.py:296-327: node (type Switch), its service, then ports 'p1'..'p<nports>' with ids
+   node_id + '-int<i>' (i from 1); same structure as add_facility, no rollback either.  `d_intk` holds the
+   interned ids for i = 1, 2, ...; `pure_port` is the verdict of the port slivers (portlabels / portcapacities
+   are the same objects for every port). *)
+Definition tSwitch : N := 10.
+Definition port_name (i : nat) : str := 112 :: str_of_Z (Z.of_nat i).       (* 'p' ++ str(i) *)
+
+Fixpoint switch_ports (fl : flavour) (ns : N) (n : nat) (i : nat) (with_id : bool) (d_intk : list N)
+         (pure_port : option exn) : M unit :=
+  match n with
+  | O => ret tt
+  | Datatypes.S n' =>
+      let nid := if with_id then Some (nth (Nat.pred i) d_intk 0) else None in
+      _ <- add_interface_cached fl ns [] (port_name i) nid (Some tDedicatedPort) pure_port ;;
+      switch_ports fl ns n' (Datatypes.S i) with_id d_intk pure_port
+  end.
+
+Definition op_add_switch (fl : flavour) (name : str) (node_id : option N) (d_ns : N) (d_intk : list N)
+           (nstype : N) (pure_ns : option exn) (nports : nat) (pure_port : option exn) : M N :=
+  let with_id := match node_id with Some _ => true | None => false end in
+  sw <- op_add_node fl name node_id (Some tSwitch) None ;;
+  sws <- op_add_node_service fl sw (name ++ suffix_ns) (if with_id then Some d_ns else None)
+                             (Some nstype) pure_ns ;;
+  switch_ports fl sws nports 1 with_id d_intk pure_port ;;;
+  ret sw.
+
 (* ---------------------------------------------------------------- one call of the history *)
 Inductive call :=
 | CAddNode (name : str) (node_id : option N) (ntype : option N) (pure : option exn)
@@ -429,7 +455,9 @@ Inductive call :=
 | CAddComponent (pn : N) (name : str) (node_id : option N) (spec_given nic_ctype sub_ids_given : bool)
                 (cat : res comp_spec) (pure : option exn)
 | CAddFacility (name : str) (node_id : option N) (d_ns d_int : N) (d_intk : list N) (nstype : N)
-               (pure_ns : option exn) (ports : option (list fac_port)) (pure_single : option exn).
+               (pure_ns : option exn) (ports : option (list fac_port)) (pure_single : option exn)
+| CAddSwitch (name : str) (node_id : option N) (d_ns : N) (d_intk : list N) (nstype : N)
+             (pure_ns : option exn) (nports : nat) (pure_port : option exn).
 
 Definition run_call (fl : flavour) (c : call) : M unit :=
   match c with
@@ -440,4 +468,5 @@ Definition run_call (fl : flavour) (c : call) : M unit :=
   | CAddLink n i t l p => _ <- op_add_link fl n i t l p ;; ret tt
   | CAddComponent pn n i a b c0 cat p => _ <- op_add_component fl pn n i a b c0 cat p ;; ret tt
   | CAddFacility n i a b k t p ports ps => _ <- op_add_facility fl n i a b k t p ports ps ;; ret tt
+  | CAddSwitch n i a k t p np pp => _ <- op_add_switch fl n i a k t p np pp ;; ret tt
   end.
